@@ -1395,6 +1395,9 @@ func (g *Gen) authTx() Op {
 		owner := g.Owners[r.Intn(len(g.Owners))]
 		d := g.newDataId()
 		payer := g.Owners[r.Intn(len(g.Owners))]
+		if r.Chance(70) {
+			payer = []int{10, 11}[r.Intn(2)] // the accounts whose did:key has a payment address registered
+		}
 		// … declaring an honest gateway, the payer's own account, or nothing as the provider it acts for
 		prov := []int{honest + 1, payer + 1, honest + 1, 0}[r.Intn(4)]
 		return Op{K: "store", Creator: adv, Provider: prov, Signer: owner + 1, Owner: owner + 1, PayDid: payer + 1, Duration: 3600, Replica: 1,
